@@ -5,7 +5,10 @@ Directed monitor: the real compiler (or factory pipeline) is run on a generated 
 plans of the *original*; for each, a guided reference search of the compiled problem (only instances whose library map-back
 equals the next original step, or is None) looks for the counterpart.  Equality is modulo original steps that leave the
 state unchanged (hazard H6).  A violation is declared only if the guided search failed *and* an exhaustive bounded search
-of the compiled problem completed, untainted by don't-care successors, without a counterpart."""
+of the compiled problem completed, untainted by don't-care successors, without a counterpart.
+
+Thorough tier only: the same judge() also runs on the repository's example problems with their known valid plans in the
+place of the enumerated ones (run_corpus, harness run_corpus / prepare_example / known_plans)."""
 from vk import env as _env  # noqa: F401
 from vk.core import h, simple_plan
 from vk.mon import compilers_harness as H
@@ -34,7 +37,11 @@ RULE = (
     "of the cases to a valuation of the shared fluents that only the *original* problem reaches within the bound). "
     "evaluations = valid original plans (length <= k) for which the compiled counterpart was searched. "
     "distinct_nontrivial = distinct (compiler, problem, original plan) with plan length >= 1, judged (found or exhaustively "
-    "refuted), where the compiled problem is structurally different from the original (some action rewritten / added / dropped)."
+    "refuted), where the compiled problem is structurally different from the original (some action rewritten / added / dropped). "
+    "Thorough tier, corpus part (counters corpus:*): every example problem of unified_planning.test.examples of class Problem "
+    "inside the reference semantics (instantaneous actions only, no timed effects/goals, processes, simulated effects; size caps) "
+    "x every compiler / pipeline whose supports() accepts its kind; the original plans are the example's known valid sequential "
+    "plans, each first confirmed valid by the reference semantics (others counted and skipped); witnesses carry 'example'."
 )
 ASSUMPTIONS = [
     "oracles vk/ref/seqsem.py, traj.py, search.py implement DESIGN §3.2/§3.3 faithfully; accessors of the model classes do not lie",
@@ -52,13 +59,25 @@ def plan(tier, seed):
 def run_shard(spec, res):
     for key in spec["cases"]:
         run_case(key, spec["tier"], res)
+    if spec["tier"] == "thorough":
+        # corpus part: this shard's share of the repository's example problems x every compiler / pipeline supporting them
+        run_corpus(res, shard=spec["shard"], nshards=H.CORPUS_SHARDS)
+
+
+def run_corpus(res, shard=0, nshards=1, only=None):
+    """Completeness on the example corpus: each known valid sequential plan of an example (a plan of the *original*), once
+    confirmed valid by the reference semantics, must have a compiled counterpart - the very same judge() as for generated
+    problems, with the known plans in the place of the enumerated ones."""
+    H.run_corpus(res, PROPERTY, lambda prep, ex, r: judge(prep, r, given=H.known_plans(prep, ex, r)), shard=shard, nshards=nshards, only=only)
 
 
 def replay(witness, res):
     # from the final recipe stored in the witness (robust against later changes of the generators); the generated case key is
     # only used when a witness carries no recipe
     tier = witness.get("tier", "quick")
-    if witness.get("recipe") and witness.get("compiler") in H.TARGETS:
+    if witness.get("example"):
+        run_corpus(res, only=(witness["example"], witness["compiler"]))
+    elif witness.get("recipe") and witness.get("compiler") in H.TARGETS:
         prep = H.prepare_from_recipe(witness["recipe"], witness["compiler"], witness["case_key"], tier, res)
         if prep is not None:
             judge(prep, res)
@@ -127,40 +146,46 @@ def run_case(key, tier, res):
         judge(prep, res)
 
 
-def judge(prep, res):
+def judge(prep, res, given=None):
+    """given: the original plans to judge (FoundPlans of prep.space_o already confirmed valid by the reference semantics -
+    corpus part); None = all valid original plans within the bound (generated part)."""
     key, tier = prep.key, prep.tier
     if prep is None:
         return
-    tn = prep.target.name
+    tn = prep.target.name  # in mechanism strings
+    cn = prep.cprefix + tn  # in counters ("corpus:<compiler>" for the example-corpus part)
     b = prep.b
-    try:
-        po = plans(prep.space_o, b["k"], max_plans=b["max_plans_o"])
-    except Unsupported:
-        res.count(tn + ":original_unsupported_by_oracle")
-        return
-    base = {"case_key": key, "tier": tier, "compiler": tn, "tags": prep.tags, "recipe": prep.rec}
+    if given is not None:
+        po_plans = list(given)
+    else:
+        try:
+            po_plans = plans(prep.space_o, b["k"], max_plans=b["max_plans_o"]).plans
+        except Unsupported:
+            res.count(cn + ":original_unsupported_by_oracle")
+            return
+    base = H.witness_base(prep)
     if prep.result is None:
         # documented rejection; a rejection that *claims unsolvability* is a completeness statement
         msg = str(prep.rejected)
-        if "NOT SOLVABLE" in msg and po.plans:
+        if "NOT SOLVABLE" in msg and po_plans:
             res.mon()
             res.case()
             kind = "always" if "always" in msg else ("sometime-before" if "sometime-before" in msg else "other")
             res.violation(
                 f"{tn}:rejects-as-unsolvable-but-original-has-valid-plan:{kind}",
-                f"{tn} raised {type(prep.rejected).__name__}({msg!r}) but the original problem has the valid plan {po.plans[0].names()}",
-                {**base, "original_plan": po.plans[0].names(), "expected": "a compiled problem with a counterpart plan", "observed": msg},
+                f"{tn} raised {type(prep.rejected).__name__}({msg!r}) but the original problem has the valid plan {po_plans[0].names()}",
+                {**base, "original_plan": po_plans[0].names(), "expected": "a compiled problem with a counterpart plan", "observed": msg},
             )
         return
-    res.count(tn + ":compiled")
-    if not po.plans:
-        res.count(tn + ":no_original_plan")
+    res.count(cn + ":compiled")
+    if not po_plans:
+        res.count(cn + ":no_original_plan")
         return
-    res.count(tn + ":with_original_plans")
+    res.count(cn + ":with_original_plans")
     try:
         lab = H.labels(prep)
     except Unsupported:
-        res.count(tn + ":compiled_unsupported_by_oracle")
+        res.count(cn + ":compiled_unsupported_by_oracle")
         return
     sp_c = prep.space_c
     different = any(l is None or l[0] == "?" or sp_c.instances[i][0] != prep.pb.action(l[0]) for i, l in enumerate(lab)) or len(
@@ -168,7 +193,7 @@ def judge(prep, res):
     ) != len(prep.space_o.instances)
     pid = h(prep.rec)
     sampled = False
-    for fp in po.plans:
+    for fp in po_plans:
         pi = [(a.name, args) for a, args in fp.steps]
         skippable = _noops(fp.sids)
         if tn == "uinr":
@@ -177,7 +202,7 @@ def judge(prep, res):
             # mentioning an undefined numeric fluent in a place the semantics does not evaluate are not judged.
             try:
                 if any(H.syntactic_undefined_numeric_read(prep.pb, s, a, args) for s, (a, args) in zip(fp.states, fp.steps)):
-                    res.count(tn + ":dontcare_unevaluated_use_of_undefined_numeric_fluent")
+                    res.count(cn + ":dontcare_unevaluated_use_of_undefined_numeric_fluent")
                     continue
             except Unsupported:
                 continue
@@ -186,28 +211,28 @@ def judge(prep, res):
         try:
             found, complete, by_label, none_idx, kmax = D.search_counterpart(sp_c, lab, pi, skippable)
         except Unsupported:
-            res.count(tn + ":compiled_unsupported_by_oracle")
+            res.count(cn + ":compiled_unsupported_by_oracle")
             return
         if found is not None:
-            res.count(tn + ":counterpart_found")
+            res.count(cn + ":counterpart_found")
             if len(pi) >= 1 and different:
                 res.nt((tn, pid, fp.idx))
-                res.count(tn + ":nontrivial_plans")
+                res.count(cn + ":nontrivial_plans")
             if not sampled and len(pi) >= 2 and different:
                 sampled = True
                 res.sample({"compiler": tn, "tags": prep.tags, "problem": prep.rec, "original_plan": fp.names(), "compiled_counterpart": found.names(), "verdict": "counterpart found"})
             continue
         if not complete:
-            res.count(tn + ":skipped_too_large")
+            res.count(cn + ":skipped_too_large")
             continue
         # exhaustive confirmation (also protects against a map-back that is not a function of the single instance)
         try:
             pc = plans(sp_c, kmax, max_plans=4000)
         except Unsupported:
-            res.count(tn + ":compiled_unsupported_by_oracle")
+            res.count(cn + ":compiled_unsupported_by_oracle")
             return
         if not pc.complete:
-            res.count(tn + ":skipped_too_large")
+            res.count(cn + ":skipped_too_large")
             continue
         target = _strip(pi, skippable)
         hit = None
@@ -229,16 +254,16 @@ def judge(prep, res):
                     hit = cpl
                     break
         if hit is not None:
-            res.count(tn + ":counterpart_found_by_exhaustive_search_only")
+            res.count(cn + ":counterpart_found_by_exhaustive_search_only")
             continue
         if sp_c.tainted:
-            res.count(tn + ":skipped_compiled_search_tainted_by_dontcare")
+            res.count(cn + ":skipped_compiled_search_tainted_by_dontcare")
             for r in sp_c.taint:
                 res.count("dontcare:" + r)
             continue
         if len(pi) >= 1 and different:
             res.nt((tn, pid, fp.idx))
-            res.count(tn + ":nontrivial_plans")
+            res.count(cn + ":nontrivial_plans")
         stage, j, feats = diagnose(prep, pi, skippable, by_label, none_idx)
         mech, culprit = D.incomplete_mechanism(prep, fp, pi, skippable, stage, j)
         res.violation(
@@ -256,7 +281,7 @@ def judge(prep, res):
         )
         return
     for t in prep.tags:
-        res.count(f"tag:{tn}:{t}")
+        res.count(f"tag:{cn}:{t}")
 
 
 def thresholds(m):
@@ -271,6 +296,8 @@ def thresholds(m):
         rej = sum(v for k, v in c.items() if k.startswith(tn + ":compile_rejected"))
         if comp + rej and rej > comp:
             out.append(f"more than 50% of the {tn} cases were rejected by the compiler ({rej} of {comp + rej})")
+    # corpus part (thorough tier only): a run whose corpus part judged (almost) nothing is inconclusive
+    out.extend(H.corpus_thresholds(c, ("counterpart_found", "counterpart_found_by_exhaustive_search_only")))
     return out
 
 
@@ -279,4 +306,5 @@ def extra_coverage(m):
     return {
         "per_compiler": {tn: {k[len(tn) + 1 :]: v for k, v in sorted(c.items()) if k.startswith(tn + ":")} for tn in H.TARGET_NAMES},
         "dont_care_counts": {k: v for k, v in c.items() if k.startswith("dontcare:")},
+        "corpus": H.corpus_coverage(c),
     }
